@@ -12,6 +12,7 @@ def run(ctx):
     if not q:
         ctx.model_check("Usm", "selftest_reportable", constants=dict(U.PINS, PinConfirmedOnlyGet=True), invariants=U.INV_C10, expect=["FlagsExact"])
         ctx.model_check("Usm", "selftest_reserialise", constants=dict(U.PINS, PinReserialise=True), invariants=U.INV_C10, expect=["AuthenticAccepted"])
+        ctx.model_check("Usm", "selftest_stats_in_response", constants=dict(U.PINS, PinStatsInResponse=True), invariants=U.INV_C10, expect=["AuthenticAccepted"])
     rnd = random.Random(ctx.seed)
     S = []
     # (1) every response length: the padding sweeps total message, scoped PDU and PDU lengths across 127/128 and 255/256
@@ -45,11 +46,34 @@ def run(ctx):
             for h in ("md5", "sha1"):
                 S.append(dict(level=level, hash=h, authpw=b"maplesyrup", privpw=b"privsecret", op=op, pad=rnd.randrange(300), ctxname=rnd.choice([b"", b"ctx", b"c" * 130]),
                               ctxengine=rnd.choice([b"", b"\x80\x00\x00\x01\x02other"])))
+    # histories in one process: a NEW client for an engine another client has talked to before its restart (nothing is shared between clients);
+    # authentic error responses (accepted and decoded as the documented exception)
+    for level in ("noauth", "auth", "authpriv"):
+        for h in ("md5", "sha1"):
+            for op in ("get", "set", "walk", "bulkget"):
+                S.append(dict(level=level, hash=h, authpw=b"maplesyrup", privpw=b"privsecret", op=op, pad=4, second_client=True, boots=rnd.choice([0, 7])))
+            for es in (2, 5, 17, 19):
+                for op in ("get", "set", "getnext", "bulkget"):
+                    S.append(dict(level=level, hash=h, authpw=b"maplesyrup", privpw=b"privsecret", op=op, pad=4, agent_es=es))
     ctx.rule = ("exchanges with an independent RFC 3412/3414 agent (own BER, own A.2 key localisation, own HMAC): response padding 0..300 so that message, "
                 "scoped-PDU and PDU lengths cross every boundary in 100..300%s; pass-phrases of %s length 1..300 for MD5 and SHA-1; engine ids of 5..32 octets, "
-                "user-name lengths, boots/time boundary values; every operation x level x context; TLC decodes each request with Ber.tla; distinct = distinct request datagram") % (
+                "user-name lengths, boots/time boundary values; every operation x level x context; a second client for the same engine after its restart; authentic error responses (status 2, 5, 17, 19); two / three requests of one client in flight answered in every order; TLC decodes each request with Ber.tla; distinct = distinct request datagram") % (
                    "" if not q else " (authPriv/noAuth every third length in quick)", "every" if not q else "48 (incl. every power of two)")
     U.drive(ctx, S)
+    # two requests of one client in flight (msgIDs differ): every authentic response is accepted in whatever order the answers arrive
+    import asyncio, itertools
+    import drv_conc as DC
+    T2 = []
+    for proto in ("v3a_md5", "v3p_sha", "v3n"):
+        for ops in ([["get", 0], ["get2", 0]], [["get", 0], ["set", 0], ["mget", 0]]):
+            solo, ex = DC.solo_results(proto, ops, 1), DC.exchanges(proto, ops, 1)
+            word = [k for k, n in ex.items() for _ in range(n)]
+            orders = sorted(set(itertools.permutations(word)))
+            for order in (orders if len(orders) <= 30 else rnd.sample(orders, 30)):
+                sc = dict(proto=proto, ops=ops, order=list(order), clients=1)
+                T2.append(dict(scenario=dict(sc, solo=solo), events=asyncio.run(DC.run_schedule(sc))))
+    ctx.evaluations += len(T2)
+    ctx.judge(T2, ctx.validate("Trace_Concurrent", T2, name="C10c"), signature=lambda tr, v: dict(hash="-", level=tr["scenario"]["proto"], op="overlap"))
     ctx.assumptions = ["HMAC-MD5-96 / HMAC-SHA-96 and key localisation are uninterpreted in TLA+; their arithmetic is decided by the reference agent's independent "
                        "implementation (digest_ok)", "client and agent share one virtual clock, so the engine time sent must equal the agent's"]
 
@@ -57,6 +81,13 @@ def run(ctx):
 def replay(ctx, path):
     import json
     sc = json.load(open(path))["trace"]["scenario"]
+    if "order" in sc:
+        import asyncio
+        import drv_conc as DC
+        solo = sc.pop("solo")
+        T = [dict(scenario=dict(sc, solo=solo), events=asyncio.run(DC.run_schedule(sc)))]
+        ctx.judge(T, ctx.validate("Trace_Concurrent", T), signature=lambda tr, v: dict(hash="-", level=tr["scenario"]["proto"], op="overlap"))
+        return
     for k in ("authpw", "privpw", "engine", "ctxname", "ctxengine", "secret"):
         if k in sc:
             sc[k] = bytes(sc[k])
